@@ -290,31 +290,8 @@ def run(repo, tier):
         v = p.exit_node.value
         conds = [(norm_src(e.node), e.pol) for e in p.events if e.kind == "test"]
         # which kinds can take this path?  tests of self.kind against constants, with their polarity on the path
-        pos, neg = None, set()
-        for e in p.events:
-            if e.kind != "test":
-                continue
-            t_ = e.node
-            pol = e.pol
-            while isinstance(t_, ast.UnaryOp) and isinstance(t_.op, ast.Not):
-                t_, pol = t_.operand, not pol
-            if not (isinstance(t_, ast.Compare) and len(t_.ops) == 1 and dotted(t_.left) == "self.kind"):
-                continue
-            c_ = t_.comparators[0]
-            if isinstance(c_, (ast.Set, ast.Tuple, ast.List)) and all(isinstance(x, ast.Constant) for x in c_.elts):
-                ks = {x.value for x in c_.elts}
-            elif isinstance(c_, ast.Constant):
-                ks = {c_.value}
-            else:
-                continue
-            if isinstance(t_.ops[0], (ast.NotIn, ast.NotEq)):
-                pol = not pol
-            elif not isinstance(t_.ops[0], (ast.In, ast.Eq)):
-                continue
-            if pol:
-                pos = ks if pos is None else pos & ks
-            else:
-                neg |= ks
+        from sa.paths import constants_on_path
+        pos, neg = constants_on_path(p.events, "self.kind")
         LEAF = {"symbol", "constant"}
         here = None if pos is None else pos - neg
         leaf = here is not None and here and here <= LEAF
